@@ -358,6 +358,10 @@ def kernels(tier):
         for n in range(2, 5 if quick else 7):
             ks.append(("pulse", dict(what="arb", kind=kind, n=n)))
     ks.append(("phase_fp", dict()))
+    # "a pulse has non-negative amplitude": Pulse.__init__ accepts iff every amplitude sample is >= 0 (kernel shared with C01)
+    for amp in ("const", "ramp", "custom"):
+        for dd in (0, 1):
+            ks.append(("pinit", dict(amp=amp, n=3, dd=dd)))
     # from_max_val: the area range is cut into slices (one shape each, ~4 window lengths per slice) so that the
     # slices run in parallel; window lengths 12..45 ns (quick) / 12..120 ns (thorough)
     max_val = 5.0
@@ -385,6 +389,10 @@ def harness(kernel, shape):
         return h_pulse(shape)
     if kernel == "phase_fp":
         return h_phase_fp(shape)
+    if kernel == "pinit":
+        from checks import c01
+
+        return c01.h_pulse_init(shape)
     if kernel == "blackman_max":
         return h_blackman_max(shape)
     if kernel == "kaiser_max":
